@@ -507,7 +507,11 @@ func (s *Solver) checkAux() Result {
 	tq := time.Now()
 	defer func() {
 		s.AuxTime += time.Since(tq)
-		if d := os.Getenv("GOSYM_DUMPSLOW"); d != "" && time.Since(tq) > 2*time.Second {
+		thr := 2 * time.Second
+		if ms, err := strconv.Atoi(os.Getenv("GOSYM_DUMPSLOW_MS")); err == nil {
+			thr = time.Duration(ms) * time.Millisecond
+		}
+		if d := os.Getenv("GOSYM_DUMPSLOW"); d != "" && time.Since(tq) > thr {
 			os.WriteFile(fmt.Sprintf("%s/slow_%d.smt2", d, s.Fallbacks), []byte(script), 0o644)
 		}
 	}()
